@@ -96,4 +96,4 @@ def run(ctx):
     ctx.evaluations = len(cases)
     ctx.distinct_nontrivial = nt
     ctx.search_stats = {"paired_runs": n, "lines_per_run": per + 2}
-    ctx.samples = [{"line_a": pairs[0][0][11], "line_b": pairs[0][1][11], "impl_a": textgen.outlines(i[0])[0], "impl_b": textgen.outlines(i[n])[0]}]
+    ctx.samples = [{"line_a": pairs[0][0][11], "line_b": pairs[0][1][11], "impl_a": textgen.sample(pairs[0][0], i[0])["impl"], "impl_b": textgen.sample(pairs[0][1], i[n])["impl"]}]
